@@ -394,6 +394,14 @@ def run(tier="quick", replay=None):
 
     # ---------------- R08.c pre-order ------------------------------------------------------------
     it_fam = prog.family(ITER_NEXT)
+    if it_fam:
+        # the arm bodies may live in a private method of the iterator (e.g. `emit`): inline same-module helpers, never the
+        # checked writer table itself
+        import inline
+        _n0 = it_fam[0]
+        _bp = inline.default_pred(prog, _n0)
+        _nv = inline.inlined(prog, _n0, pred=lambda g: _bp(g) and inline.same_module(_n0, g) and g.path not in (WRITER, READER), depth=2)
+        it_fam = [_nv] + it_fam[1:] + [c for h in _nv.d.get("inlined", []) for c in prog.closures_of(h)]
     found = False
     for f in it_fam:
         fl = Flow(f)
